@@ -146,9 +146,20 @@ def gen_scale(rng, exact):
     return rng.choice([3.0, 0.1, rng.uniform(0.05, 20)])
 
 
+def coarse(rng, a, n_full=16):
+    """exact arithmetic on the biweight iteration multiplies the digits of the input about tenfold per step:
+    most vectors are put on a dyadic grid of 2..8 fractional bits, full doubles are kept for short vectors"""
+    if len(a) <= n_full and rng.random() < 0.4:
+        return a
+    k = 2 ** rng.randint(2, 8)
+    return [None if v is None else round(v * k) / k for v in a]
+
+
 def loc_case(rng, name, nmax=400):
     n = gen_len(rng, nmax)
     a, ex = gen_vec(rng, n)
+    if name == "biweight_location":
+        a = coarse(rng, a)
     tag = "plain"
     if rng.random() < 0.15:
         a, tag = add_nans(rng, a), "nan"
@@ -170,6 +181,8 @@ def loc_case(rng, name, nmax=400):
 def scale_case(rng, name, nmax=400):
     n = gen_len(rng, nmax)
     a, ex = gen_vec(rng, n)
+    if name == "bivar":
+        a = coarse(rng, a, 10)
     tag = "plain"
     if rng.random() < 0.15:
         a, tag = add_nans(rng, a), "nan"
@@ -205,7 +218,7 @@ def smooth_case(rng, name, nmax=400):
             i["width"], i["malformed"] = None, False
         i["window_width"] = rng.choice([7, 7, 7, 3, 5, 9, 11])
         i["order"] = rng.choice([3, 3, 3, 1, 2, 4])
-        i["n_iter"] = rng.choice([1, 1, 1, 2, 3])
+        i["n_iter"] = rng.choice([1, 1, 1, 2, 3]) if (n <= 30 and name == "savgol") or n <= 12 else 1
     if name == "savgol_w":
         kind = rng.choice(["equal1", "random", "random", "dominant", "dyadic", "zeros-sparse", "positive-wide"])
         if kind == "zeros-sparse":
@@ -253,9 +266,9 @@ def finding_P_cases():
 
 def gen_cases(rng, tier):
     mult = {"quick": 1, "thorough": 8, "search": 2}[tier]
-    plan = [("loc", "biweight_location", 350, 60), ("loc", "modal_location", 150, 120), ("loc", "weighted_median", 1200, 400),
+    plan = [("loc", "biweight_location", 300, 60), ("loc", "modal_location", 150, 120), ("loc", "weighted_median", 1200, 400),
             ("scale", "mad", 250, 400), ("scale", "iqr", 250, 400), ("scale", "gapper", 250, 400), ("scale", "qn", 120, 40),
-            ("scale", "bivar", 200, 40), ("scale", "wmad", 500, 400), ("scale", "wstd", 250, 400),
+            ("scale", "bivar", 150, 30), ("scale", "wmad", 500, 400), ("scale", "wstd", 250, 400),
             ("smooth", "rolling_median", 350, 400), ("smooth", "kaiser", 250, 400), ("smooth", "savgol", 250, 400),
             ("smooth", "savgol_w", 250, 400)]
     cases = []
